@@ -283,7 +283,11 @@ func (c *Ctx) rulesC13(a *coreAnchors, la *LockAnalysis) {
 					if st.Dir != types.RecvOnly {
 						continue
 					}
-					if isMachCtxDone(st.Chan, exported) {
+					ch := st.Chan
+					if p, ok := ch.(*ssa.Parameter); ok {
+						ch = c.soleSiteArg(p)
+					}
+					if isMachCtxDone(ch, exported) {
 						hasCtx = true
 					}
 					if call, ok := st.Chan.(*ssa.Call); ok && calleeName(&call.Call) == "After" {
